@@ -404,7 +404,7 @@ class Body:
         return self.blocks[b]["stmts"][i]["line"]
 
     def loc(self, b, i=None):
-        return "%s:%d" % (self.file, self.line_of(b, i))
+        return "%s:%d" % (self.blocks[b].get("file", self.file), self.line_of(b, i))
 
     # -- pretty printer ----------------------------------------------------------------------------------------
     def pp(self, out=sys.stdout, show_cleanup=False):
@@ -507,8 +507,16 @@ class Program:
         return r[0]
 
     def closures_of(self, body):
-        """closure bodies whose parent chain starts at `body` (direct children only)"""
-        return [b for b in self.bodies if b.kind == "closure" and b.raw.get("parent") == body.path]
+        """closure bodies defined directly in `body`, plus closures whose aggregate is built in `body`
+        (the latter matters in the helper-inlined view, where a helper's closures are built by its caller)"""
+        out = {b.path: b for b in self.bodies if b.kind == "closure" and b.raw.get("parent") == body.path}
+        for blk in body.blocks:
+            for st in blk["stmts"]:
+                if st["k"] == "assign" and "agg" in st.get("rv", {}) and st["rv"]["agg"]["kind"] == "closure":
+                    cb = self.by_path.get(st["rv"]["agg"]["closure"])
+                    if cb is not None:
+                        out[cb.path] = cb
+        return list(out.values())
 
     def adt(self, path):
         return self.adts.get(path)
